@@ -37,6 +37,8 @@ pub enum Alt {
     /// replace the ephemeral public key by a different encoding / related valid point that
     /// yields the same DH outputs: P-256 (X, Y) -> (X, p - Y); X25519: top bit of u set
     RelatedEphemeral,
+    /// swap two 16-byte blocks of the message (block indices modulo the number of blocks)
+    SwapBlocks(u16, u16),
 }
 
 #[derive(Clone, Debug, Serialize, Deserialize)]
@@ -138,6 +140,17 @@ fn oracle(c: &Case, acc: &mut Acc) -> CaseResult {
         },
         Alt::ParallelOtherKeys => parallel(false)?,
         Alt::ParallelSameStatics => parallel(true)?,
+        Alt::SwapBlocks(a, b) => {
+            let mut m = genuine.clone();
+            let nb = m.len() / 16;
+            if nb >= 2 {
+                let (a, b) = (*a as usize % nb, *b as usize % nb);
+                for k in 0..16 {
+                    m.swap(a * 16 + k, b * 16 + k);
+                }
+            }
+            m
+        },
     };
     if altered == genuine {
         acc.skip("alteration left the message unchanged");
@@ -163,10 +176,22 @@ fn oracle(c: &Case, acc: &mut Acc) -> CaseResult {
         acc.label(format!("related_ephemeral:{}", spec.suite.dh.name()));
     }
     // deliver
-    let mut buf = vec![0u8; 65535 + 64];
+    // the receiver's payload buffer: ample, or exactly the honest payload length (empty for an
+    // empty payload) - implementations choose decrypt paths by the room they are given
+    let tight = spec.key_seed % 3 == 0;
+    let mut buf = vec![0u8; if tight { (altered.len().max(genuine.len())).saturating_sub(l.overhead).max(c.plen) } else { 65535 + 64 }];
+    if tight {
+        acc.label("read_buffer:tight");
+    }
     let res = {
         let r = if i_sends { &mut pair.r } else { &mut pair.i };
-        r.read_message(&altered, &mut buf)
+        let first = r.read_message(&altered, &mut buf);
+        if first.is_err() && c.plen % 2 == 1 {
+            // a rejected altered message presented a second time must be rejected again
+            let second = r.read_message(&altered, &mut buf);
+            ensure!(second.is_err(), "{name}: message {} altered by {:?}: rejected at first, ACCEPTED when delivered again", c.idx, c.alt);
+        }
+        first
     };
     if touches_encrypted && !structural {
         ensure!(
@@ -291,8 +316,11 @@ fn alterations(spec: &SessionSpec, idx: usize, plen: usize, all_bits: bool, all_
             }
         }
     }
-    for n in [1usize, 16, 64] {
+    for n in [1usize, 15, 16, 17, 32, 48, 64, 128] {
         out.push(Alt::Extend(n));
+    }
+    for k in 0..3u64 {
+        out.push(Alt::SwapBlocks((mix(seed, 400 + k) % 64) as u16, (mix(seed, 410 + k) % 64) as u16));
     }
     for k in 0..4u64 {
         out.push(Alt::Set((mix(seed, 200 + k) % total as u64) as usize, (mix(seed, 210 + k) & 0xff) as u8));
@@ -320,10 +348,14 @@ pub fn run(ctx: &Ctx) {
         // one 25519 and one P-256 suite per handshake string
         for half in 0..2 {
             let suite = suites[half * 12 + (ni * 7 + 2) % 12];
-            let spec = SessionSpec::simple(hs.clone(), suite, mix(ctx.seed, (ni * 2 + half) as u64));
+            let mut spec = SessionSpec::simple(hs.clone(), suite, mix(ctx.seed, (ni * 2 + half) as u64));
+            if ring_covers(suite) {
+                spec.backend_i = crate::instr::BACKENDS[ni % 3];
+                spec.backend_r = crate::instr::BACKENDS[(ni + 1) % 3];
+            }
             for idx in 0..spec.n_msgs() {
-                for plen in [0usize, 9] {
-                    if half == 1 && plen == 9 && !thorough {
+                for plen in [0usize, 9, 100] {
+                    if ((half == 1 && plen == 9) || (plen == 100 && (ni + idx) % 3 != 0)) && !thorough {
                         continue;
                     }
                     for a in alterations(&spec, idx, plen, false, false, mix(ctx.seed, (ni * 10 + idx) as u64)) {
@@ -343,7 +375,11 @@ pub fn run(ctx: &Ctx) {
     for (ni, hs) in base.iter().enumerate() {
         for (ci, cipher) in ciphers.iter().enumerate() {
             let suite = *suites.iter().filter(|s| s.cipher == *cipher && s.dh == DhKind::X25519).nth((ni + ci) % 4).unwrap();
-            let spec = SessionSpec::simple(hs.clone(), suite, mix(ctx.seed, 700 + ni as u64));
+            let mut spec = SessionSpec::simple(hs.clone(), suite, mix(ctx.seed, 700 + ni as u64));
+            if ring_covers(suite) && ni % 2 == 0 {
+                spec.backend_i = crate::instr::Backend::RingFirst;
+                spec.backend_r = crate::instr::Backend::RingFirst;
+            }
             for idx in 0..spec.n_msgs() {
                 let l = &spec.layouts()[idx];
                 let total = l.overhead + 3;
@@ -368,16 +404,21 @@ pub fn run(ctx: &Ctx) {
         ctx.tier.pick(6000, 100_000),
         || {
             let all = all.clone();
-            (any::<u16>(), 0usize..24, any::<u64>(), any::<u16>(), 0usize..40, any::<u64>(), 1u8..12, 0u8..6).prop_map(move |(ni, si, ks, mi, plen, es, cnt, kind)| {
+            (any::<u16>(), 0usize..24, any::<u64>(), any::<u16>(), prop_oneof![4 => 0usize..40, 1 => 40usize..400], any::<u64>(), 1u8..12, 0u8..7).prop_map(move |(ni, si, ks, mi, plen, es, cnt, kind)| {
                 let suites = all_suites();
-                let spec = SessionSpec::simple(all[pick(ni, all.len())].clone(), suites[si], mix(seed, ks));
+                let mut spec = SessionSpec::simple(all[pick(ni, all.len())].clone(), suites[si], mix(seed, ks));
+                if ring_covers(suites[si]) && ks % 2 == 1 {
+                    spec.backend_i = crate::instr::Backend::RingFirst;
+                    spec.backend_r = crate::instr::Backend::RingFirst;
+                }
                 let idx = pick(mi, spec.n_msgs());
                 let total = spec.layouts()[idx].overhead + plen;
                 let alt = match kind {
                     0 => Alt::Flip((es % total as u64) as usize, (es >> 32) as u8 % 8),
                     1 => Alt::Set((es % total as u64) as usize, (es >> 40) as u8),
                     2 => Alt::Trunc((es % total as u64) as usize),
-                    3 => Alt::Extend(1 + (es % 70) as usize),
+                    3 => Alt::Extend(1 + (es % 200) as usize),
+                    6 => Alt::SwapBlocks((es >> 8) as u16, (es >> 24) as u16),
                     _ => Alt::Multi(es, cnt),
                 };
                 Case { spec, idx, alt, plen }
